@@ -85,6 +85,8 @@ func init() {
 //	framecSendsWhole     every sender makes exactly ONE send per call, outside any loop / closure, of a
 //	                     variable that was obtained from one constructor call in that function and is
 //	                     otherwise only extended (`v = append(v, …)` or any `v = f(v, …)`), and does not touch it after the send
+//	framecSendsBlocking  every send on the channel is a plain send statement, none is a case of a select (a
+//	                     select with default or a timeout arm could give the frame up)
 //	framecSenders        number of sender functions (> 0)
 //	framecReceivers      receive expressions on the channel in the file
 //	writerWritesReceived the receive is `case v := <-ch:` whose body passes v exactly once to <writer>.Write
@@ -161,11 +163,20 @@ func streamFacts(g *gen, mf *ast.File) {
 			return true
 		})
 	}
+	blocking := true // no send on the channel is a case of a select (which could give up: default, timeout)
 	for _, fd := range funcs {
 		walk(fd, fd.Body, false, func(n ast.Node, nested bool) {
 			if ss, ok := n.(*ast.SendStmt); ok && isSel(ss.Chan, chField) {
 				direct[fd] = append(direct[fd], sendOp{ss.Value, ss.Pos(), nested})
 			}
+		})
+		ast.Inspect(fd.Body, func(n ast.Node) bool {
+			if cc, ok := n.(*ast.CommClause); ok {
+				if ss, ok := cc.Comm.(*ast.SendStmt); ok && isSel(ss.Chan, chField) {
+					blocking = false
+				}
+			}
+			return true
 		})
 	}
 	// forwarders: one un-nested send of a parameter
@@ -349,6 +360,7 @@ func streamFacts(g *gen, mf *ast.File) {
 		whole = false
 	}
 	g.def("framecSendsWhole", "Bool", strconv.FormatBool(whole))
+	g.def("framecSendsBlocking", "Bool", strconv.FormatBool(blocking))
 	g.def("framecSenders", "Nat", strconv.Itoa(senders))
 	g.def("framecReceivers", "Nat", strconv.Itoa(receivers))
 	g.def("writerWritesReceived", "Bool", strconv.FormatBool(writesReceived))
